@@ -44,33 +44,42 @@ def sccClose (i : Nat) (st : Scc) : Scc :=
     else st
   | [] => { st with err := true }
 
+/-- `index[v] = len(stack); stack.append(v); boundaries.append(index[v])` -/
+def sccPush (v : Str) (st : Scc) : Scc :=
+  { st with index := (v, st.stack.length) :: st.index, stack := st.stack ++ [v],
+            boundaries := st.stack.length :: st.boundaries }
+
+/-- one iteration of `for w in edges[v]`; `rec` is the recursive `dfs` -/
+def sccStep (rec : Str → Scc → Scc) (st : Scc) (w : Str) : Scc :=
+  if st.err then st else
+  match dget st.index w with
+  | none => rec w st
+  | some iw =>
+    if st.identified.contains w then st else
+    match popWhile iw st.boundaries with
+    | some bs => { st with boundaries := bs }
+    | none => { st with err := true }
+
 /-- `dfs(v)`; the first argument bounds the recursion depth (every nested call
 indexes a vertex that was not indexed before, so `|edges| + 2` is never reached). -/
 def dfs : Nat → Graph → Str → Scc → Scc
   | 0, _, _, st => { st with err := true }
   | fuel + 1, g, v, st =>
     let i := st.stack.length
-    let st := { st with index := (v, i) :: st.index, stack := st.stack ++ [v],
-                        boundaries := i :: st.boundaries }
+    let st := sccPush v st
     match dget g v with
     | none => { st with err := true }
     | some ws =>
-      let st := ws.foldl (fun st w =>
-        if st.err then st else
-        match dget st.index w with
-        | none => dfs fuel g w st
-        | some iw =>
-          if st.identified.contains w then st else
-          match popWhile iw st.boundaries with
-          | some bs => { st with boundaries := bs }
-          | none => { st with err := true }) st
+      let st := ws.foldl (sccStep (dfs fuel g)) st
       if st.err then st else sccClose i st
 
-/-- the whole function: `for vertex in set(edges): if vertex not in index: dfs(vertex)` -/
-def sccRun (g : Graph) (vorder : List Str) : Scc :=
-  vorder.foldl (fun st v =>
-    if st.err then st else
-    if dhas st.index v then st else dfs (g.length + 2) g v st) {}
+/-- one iteration of `for vertex in set(edges): if vertex not in index: dfs(vertex)` -/
+def sccRoot (g : Graph) (st : Scc) (v : Str) : Scc :=
+  if st.err then st else
+  if dhas st.index v then st else dfs (g.length + 2) g v st
+
+/-- the whole function -/
+def sccRun (g : Graph) (vorder : List Str) : Scc := vorder.foldl (sccRoot g) {}
 
 /-- `list(strongly_connected_components(edges))`; `none` = an exception escaped -/
 def stronglyConnectedComponents (g : Graph) (vorder : List Str) : Option (List (List Str)) :=
